@@ -125,6 +125,24 @@ fn store_entry_points(schema: &ValidatorSchema, p: &Pub, base: &[DEntity], repla
             let s0 = cedar_policy::Entities::from_entities(build(base)?.into_iter().map(cedar_policy::Entity::from), Some(&p.schema)).map_err(|e| format!("base: {e}"))?;
             s0.upsert_entities([cedar_policy::Entity::from(t.to_entity()?)], Some(&p.schema)).map_err(|e| e.to_string())
         })));
+        // one upsert call naming the target's uid twice: the (conformant) original first and the target last, and the
+        // other way round — every element of the batch must be validated, whatever happens to repeated uids
+        let first: DEntity = match replaced { Some(i) => base[i].clone(), None => t.clone() };
+        for (name_core, name_pub, batch) in [
+            ("core::upsert_entities[orig,target]", "pub::upsert_entities[orig,target]", vec![first.clone(), t.clone()]),
+            ("core::upsert_entities[target,orig]", "pub::upsert_entities[target,orig]", vec![t.clone(), first.clone()]),
+        ] {
+            let b1 = batch.clone();
+            res.push((name_core, acc(|| -> Result<_, String> {
+                let s0 = Entities::from_entities(build(base)?, Some(&core), TCComputation::ComputeNow, ext).map_err(|e| format!("base: {e}"))?;
+                let es: Vec<Arc<ast::Entity>> = build(&b1)?.into_iter().map(Arc::new).collect();
+                s0.upsert_entities(es, Some(&core), TCComputation::ComputeNow, ext).map_err(|e| e.to_string())
+            })));
+            res.push((name_pub, acc(|| -> Result<_, String> {
+                let s0 = cedar_policy::Entities::from_entities(build(base)?.into_iter().map(cedar_policy::Entity::from), Some(&p.schema)).map_err(|e| format!("base: {e}"))?;
+                s0.upsert_entities(build(&batch)?.into_iter().map(cedar_policy::Entity::from), Some(&p.schema)).map_err(|e| e.to_string())
+            })));
+        }
         res.push(("pub::Entity::from_json_value", acc(|| cedar_policy::Entity::from_json_value(t.to_json(), Some(&p.schema)))));
     }
     res
